@@ -63,7 +63,59 @@ def _work(chunk):
                 nontrivial.add((q, di))
                 if len(samples) < 3:
                     samples.append({"query": q, "document": doc, "result": [refsem.node_repr(n) for n in exp]})
+        # the same compiled query applied again after the document was edited in place, and to a new document
+        # (results must not depend on what the query was applied to before)
+        for doc in docs[:: max(1, len(docs) // 6)][:6]:
+            d1 = copy.deepcopy(doc)
+            try:
+                list(c.find(d1))
+                edited = _edit_in_place(d1)
+                if not edited:
+                    continue
+                evals += 1
+                exp = refsem.expected_nodes(c, d1)
+                act = list(c.find(d1))
+                if not refsem.same(act, exp):
+                    col.add(classify(q, d1, "wrong-result-after-reuse"), "find() on a document edited in place after an earlier application of the same compiled query differs from RFC 9535 semantics",
+                            {"query": q, "document_before": doc, "document_after_edit": d1}, [refsem.node_repr(n) for n in exp], [refsem.node_repr(n) for n in act])
+            except Exception:  # noqa: BLE001
+                continue
     return {"evals": evals, "nontrivial": len(nontrivial), "violations": col.list(), "not_wf": not_wf, "samples": samples}
+
+
+def _edit_in_place(d):
+    """change every leaf / add a member, keeping the container objects (and their ids)"""
+    if isinstance(d, list):
+        if not d:
+            d.append(1)
+            return True
+        for i, x in enumerate(d):
+            if isinstance(x, (list, dict)):
+                _edit_in_place(x)
+            else:
+                d[i] = _other(x)
+        return True
+    if isinstance(d, dict):
+        if not d:
+            d["a"] = 1
+            return True
+        for k, x in list(d.items()):
+            if isinstance(x, (list, dict)):
+                _edit_in_place(x)
+            else:
+                d[k] = _other(x)
+        return True
+    return False
+
+
+def _other(x):
+    if isinstance(x, bool):
+        return not x
+    if isinstance(x, (int, float)):
+        return x + 1
+    if isinstance(x, str):
+        return x + "a"
+    return 1
 
 
 def run_product(queries, docs, classify, env_factory=None, rule=""):
